@@ -18,6 +18,7 @@ FIRST = {
     "C01-panicking-drop-clears-instead-of-restoring": "exit 0 (Kani does not unwind; thread::panicking() is constant false) -> Drop contract re-proved with panicking() stubbed to true",
     "C01-computed-name-key-cached-per-callsite": "exit 0 expected (each call site was executed once per harness) -> call-site-twice harness, added after reading the change's summary and before its run",
     "C05-quiesce-head-block-only": "exit 0 (bucket level was unreachable for Kani) -> epoch stubs (pin, decompose_tag, snooze) and designed-state bucket harnesses",
+    "C03-get-hash-flag-before-value": "exit 0 (the R/G stubs covered load/store only; the change publishes the flag with swap) -> swap / fetch_or / compare_exchange on the flag stubbed with the same guarantee",
     "C17-new-span-merges-current-not-parent": "exit 2 (Context stub lacked lookup_current) -> stub widened",
     "C17-filter-sees-empty-value": "exit 2 (closure annotation keyed to parameter names) -> annotation by position",
 }
